@@ -4,6 +4,9 @@ Line-protocol driver over Model + Spec.  One op per line, tab separated:
 `bad-op` is printed for anything the driver cannot decode (never a default).
 -/
 import Driver.Proto
+import Driver.ValCodec
+import TableauVerif.Model.Patch
+import TableauVerif.Spec.C13
 import TableauVerif.Model.Options
 import TableauVerif.Model.Excel
 import TableauVerif.Model.Xerrors
@@ -176,6 +179,22 @@ def c03 (fn : String) (a : List String) : Option String := do
     some (Spec.C03.holds (← decKind? k) (← decStr? raw) (← decRes? obs)).toString
   | _, _ => none
 
+/-! ### C13 (patch) -/
+def c13 (fn : String) (a : List String) : Option String := do
+  match fn, a with
+  | "c13.patch", [d, dst, src] =>
+    let d ← decDescArg? d
+    let dst ← decValArg? dst
+    let src ← decValArg? src
+    some (valString (Patch.patch d dst src))
+  | "o.c13.patch", [d, dst, src, obs] =>
+    let d ← decDescArg? d
+    let dst ← decValArg? dst
+    let src ← decValArg? src
+    -- the observation must be exactly the specified message (and the harness saw src untouched)
+    some (verdict (obs == valString (Spec.C13.expected d dst src)))
+  | _, _ => none
+
 def dispatch (line : String) : String :=
   match line.splitOn "\t" with
   | [] => "bad-op"
@@ -184,6 +203,7 @@ def dispatch (line : String) : String :=
       if fn.startsWith "c14." || fn.startsWith "o.c14." then c14 fn args
       else if fn.startsWith "c07." || fn.startsWith "o.c07." then c07 fn args
       else if fn.startsWith "c03." || fn.startsWith "o.c03." then c03 fn args
+      else if fn.startsWith "c13." || fn.startsWith "o.c13." then c13 fn args
       else none
     r.getD "bad-op"
 
